@@ -337,7 +337,8 @@ func (f *FailoverOf[V]) doBuild(
 		}
 
 		if f.config.FailedUpdateTTL > -1 {
-			writeErr := f.Errors.Write(ctx, key, err)
+			// Failure is cached with FailedUpdateTTL regardless of value ttl that may be set in context.
+			writeErr := f.Errors.Write(WithTTL(ctx, DefaultTTL, false), key, err)
 			if writeErr != nil && f.logError != nil {
 				f.logError(ctx, "failed to cache update failure",
 					"error", writeErr,
